@@ -111,11 +111,36 @@ func genCase(t *rapid.T) Case {
 		for i := 0; i < np; i++ {
 			c.Ops = append(c.Ops, op("propose"))
 		}
+		if rapid.IntRange(0, 5).Draw(t, "revoke") == 0 {
+			// quorum, then one of its senders turns out to be a double voter, then the next quorum:
+			// a quorum that was counted once must not outlive the removal of a double voter's weight
+			blk := rapid.IntRange(0, 5).Draw(t, "revblock")
+			first := rapid.SampledFrom([]int{1, 1, 1, 3, 0}).Draw(t, "revfirst")
+			second := rapid.SampledFrom([]int{3, 3, 1, 0}).Draw(t, "revsecond")
+			pre := op("votes-until")
+			pre.A, pre.C, pre.D = 0, blk, 0
+			a := op("votes-until")
+			a.A, a.C = first, blk
+			a.D = rapid.IntRange(0, 1).Draw(t, "revmode")
+			e := op("late-equiv")
+			e.A = first
+			b := op("votes-until")
+			b.A, b.C, b.D = second, blk, 0
+			if rapid.Bool().Draw(t, "revprevotes") {
+				c.Ops = append(c.Ops, pre)
+			}
+			c.Ops = append(c.Ops, a)
+			for n := rapid.IntRange(1, 2).Draw(t, "revn"); n > 0; n-- {
+				c.Ops = append(c.Ops, e)
+				e.B++
+			}
+			c.Ops = append(c.Ops, b)
+		}
 		steps := rapid.IntRange(0, 6).Draw(t, "steps")
 		for st := 0; st < steps; st++ {
 			nev := rapid.IntRange(0, 3).Draw(t, "nev")
 			for i := 0; i < nev; i++ {
-				k := rapid.SampledFrom([]string{"vote", "vote", "vote", "votes-until", "votes-until", "votes-until", "propose"}).Draw(t, "ev")
+				k := rapid.SampledFrom([]string{"vote", "vote", "vote", "votes-until", "votes-until", "votes-until", "propose", "late-equiv"}).Draw(t, "ev")
 				o := op(k)
 				if k == "vote" && rapid.IntRange(0, 2).Draw(t, "honestvote") == 0 {
 					o.D = 0
@@ -748,6 +773,37 @@ func runCase(c Case) kit.Result {
 				if r := process(); r != nil {
 					return *r
 				}
+			}
+		case "late-equiv":
+			// a sender whose vote of this kind has been counted votes another block of the same step later on
+			kind := kinds[op.A%4]
+			if kind == ucon.NextIndex || (kind == ucon.Certificate && !w.isCert()) {
+				kind = ucon.Precommit
+			}
+			var cands []int
+			for s := range w.first[kind] {
+				if s != 0 && !w.equiv[kind][s] {
+					cands = append(cands, s)
+				}
+			}
+			if len(cands) == 0 {
+				continue
+			}
+			sort.Ints(cands)
+			sender := cands[op.B%len(cands)]
+			other := w.pickBlock(op.C)
+			if other == w.first[kind][sender] {
+				other = w.pickBlock(op.C + 1)
+			}
+			if other == w.first[kind][sender] {
+				other = crypto3(byte(op.C))
+			}
+			adversarial++
+			w.labels["late-equivocation"] = true
+			w.logf("[%d] deliver (double vote of a counted sender):", i)
+			w.sendVote(kind, sender, other, 0)
+			if r := process(); r != nil {
+				return *r
 			}
 		case "votes-until":
 			kind := kinds[op.A%4]
